@@ -125,9 +125,8 @@ PROPS = {
     "C03": {
         "engines": [("c03", "main")],
         "lean": ["PgsVerif.Props.C03"],
-        "category": "exploration",
         "rule": "curated worlds + seeded random protodesc-valid worlds (see C01: 1-5 files, import DAGs with public re-exports and unused imports, shared/nested/empty packages, both proto2 spellings and proto3, nesting depth <= 4, map entries interleaved among nested types, real/synthetic oneofs, all scalar kinds x labels x map keys, enum/message references to same file / direct imports / publicly re-exported files, recursion, extensions at file and message scope, services, SourceCodeInfo); observed: per field and extension: classification (IsMap/IsRepeated/IsEnum/IsEmbed), ProtoType/ProtoLabel, Enum()/Embed()/Element()/Key() targets by descriptor identity, owner back-links, every accessor of the type called under recover, second opinion from protobuf's own reflection (IsMap/IsList/Kind/Message().FullName) on the same descriptors; methods' input/output; extendees and back-listing; non-trivial = world with at least one message (C04: at least 2 files)",
-        "level_text": "THEOREMS PENDING (level exploration until proved): executable Lean model of ast.go's hydration and of the accessors compared with the real AST on every generated world; Phi_C03: shape table (label, type, referenced message is map entry), targets = THE declared entity of that FQN and kind, owner links, totality, protoreflect agreement, methods, extendee and applied-extension lists - evaluated on every observed AST.",
+        "level_text": "Lean theorems (Props/C03 over Proofs/HydrateSpec): hydrate_spec / C03_graph (on every Valid request the build succeeds and the type of EVERY field and extension is specType - classified by the table (label, type, referenced message is a map entry) - and every enum/message it refers to directly, as repeated element or as map key/value, every method input/output and every extendee is declaredAs w name kind, THE declaration of the request bearing that fully-qualified name, whichever file declares it; proved by reading each timed index lookup of the successful run back to the declarative lookup over all declarations), C03_shape + C03_shape_one_of (exactly one of scalar/enum/embed/repeated/map, by the table), C03_target_declared, C03_ext_resolves, C03_not_failed; concrete two-file example checked by decide. Owner back-links, totality of every accessor (incl. extension types) and agreement with protobuf's own reflection are observed columns: Phi_C03 evaluates them on every real AST and the model must equal the implementation on every case.",
         "level_note": "Trusted: protodesc.NewFiles defines 'valid request'; descriptor pointer identity as entity identity; protoreflect (protobuf-go v1.23.0) as the reference for 'protobuf's own semantics'.",
     },
     "C04": {
